@@ -57,7 +57,7 @@ impl Config {
         requires
             1 <= log_n_cosets@ <= 16, // [C01,C02,C11:fri-validate-called-with-bounded-blowup]
         ensures
-            r.is_ok() <==> fri_ok(self, log_n_cosets@, n_verifier_friendly_commitment_layers@), // [C01,C02,C11:fri-config-ok-iff-oracle]
+            r.is_ok() <==> fri_ok(self, log_n_cosets@, n_verifier_friendly_commitment_layers@), // [C01,C02,C11,C17,C18:fri-config-ok-iff-oracle]
             r.is_ok() ==> r->Ok_0@ as int == steps_sum(self.fri_step_sizes@, self.n_layers@ as int) + self.log_last_layer_degree_bound@, // [C11:fri-returns-log-input-degree]
     {
         if self.n_layers < MIN_FRI_LAYERS.into() || self.n_layers > MAX_FRI_LAYERS.into() {
